@@ -86,7 +86,7 @@ def walk(w, rnd, profile, steps, opts):
                     ("idle", wt.get("idle", 0.5)), ("lost", wt.get("lost", 0.6)), ("disconnect", wt.get("disconnect", 0.25)), ("connect", 0.2),
                     ("pokeid", 0.5 if opts.get("wrap") else 0), ("garbage", wt.get("garbage", 0))]
         if st == "ConnectedState" and tr in ("open", "closing"):
-            choices += [("ack", wt.get("ack", 7)), ("inbound", 3 if profile != "pub" else 0.3), ("pingresp", 2.5 if opts.get("wt", {}).get("idle", 0) > 1 else 0.7), ("stray", 0.7)]
+            choices += [("ack", wt.get("ack", 7)), ("inbound", wt.get("inbound", 3) if profile != "pub" else 0.3), ("pingresp", 2.5 if opts.get("wt", {}).get("idle", 0) > 1 else 0.7), ("stray", 0.7)]
         tot = sum(c[1] for c in choices); x = rnd.random() * tot
         for name, wt in choices:
             x -= wt
@@ -216,7 +216,7 @@ def main():
     for p in ("pub", "sub", "both"):
         files[p] = open(os.path.join(outdir, p + ".ndjson"), "w"); idx[p] = []; lines[p] = 0
     for tid in range(1, n + 1):
-        prof = rnd.choice({"subs": ["sub", "both"], "retry": ["pub", "both", "both"], "qos2": ["pub", "both"]}.get(fam, ["pub", "sub", "both", "both"]))
+        prof = rnd.choice({"subs": ["sub", "both"], "retry": ["pub", "both", "both"], "qos2": ["pub", "both"], "persist": ["pub", "both"], "wrapsess": ["pub", "both"], "inbound": ["sub", "both"]}.get(fam, ["pub", "sub", "both", "both"]))
         w = W.World(prof, len(idx[prof]) + 1, files[prof])
         opts = {"maxgen": 3, "clean": rnd.choice([0.0, 0.5, 1.0]), "wrap": fam == "wrap" or (fam == "mixed" and rnd.random() < 0.25)}
         if fam == "session":      # many losses of every kind, several generations, both session modes
@@ -228,6 +228,12 @@ def main():
         elif fam == "qos2":       # QoS 2 exchanges only, mostly persistent sessions, publishes before CONNACK, many expiries
             opts.update(maxgen=4, maxfires=20, drain=8, qos=[2, 2, 2, 1], clean=rnd.choice([0.0, 0.0, 0.3]),
                         wt={"publish": 6, "fire": 5, "ack": 9, "lost": 1.0, "set": 0.6, "subscribe": 0.1, "unsubscribe": 0.1, "disconnect": 0.1}, ka=[0])
+        elif fam == "persist":    # persistent sessions only: losses at every point, window changes, held-back messages of every QoS
+            opts.update(maxgen=5, clean=0.0, qos=[0, 0, 1, 2, 2], wt={"lost": 1.8, "publish": 8, "set": 1.5, "ack": 6, "fire": 1.0, "disconnect": 0.2}, ka=[0])
+        elif fam == "wrapsess":   # persistent sessions with the identifier counter around the wrap
+            opts.update(maxgen=4, clean=0.0, wrap=True, wt={"lost": 1.6, "publish": 8, "set": 2.0, "ack": 4, "fire": 1.0, "disconnect": 0.1}, ka=[0])
+        elif fam == "inbound":    # inbound QoS 0/1/2 traffic with repeats, losses and reconnects in the middle of exchanges
+            opts.update(maxgen=5, clean=rnd.choice([0.0, 0.0, 0.5]), wt={"lost": 1.6, "publish": 0.5, "subscribe": 0.5, "unsubscribe": 0.2, "inbound": 9, "ack": 1, "fire": 0.5}, ka=[0])
         elif fam == "subs":
             opts.update(maxgen=4, wt={"subscribe": 6, "unsubscribe": 5, "publish": 1, "lost": 1.2, "set": 2}, ka=[0])
         try:
